@@ -558,7 +558,6 @@ class State(MutableMapping):
             self._last_fork = None
             return
         to_revert = subset.to(torch.bool)
-        to_keep = ~to_revert
         for k, old_v in self._last_fork.items():
             cur_v = self._values[k]
             if old_v is None or cur_v is None:
@@ -567,13 +566,19 @@ class State(MutableMapping):
                 assert (
                     old_v.shape == cur_v.shape
                 ), f"Bad shapes for {k}: {old_v.shape} != {cur_v.shape}"
+                # select entries instead of blending them arithmetically (`old * m + cur * ~m`):
+                # a non-finite discarded entry would otherwise contaminate the kept one (inf * 0 = nan)
                 if right_broadcasting:
                     add_ndim = max(old_v.ndim - to_revert.ndim, 0)
-                    self._values[k] = old_v * unsqueeze_right(
-                        to_revert, ndim=add_ndim
-                    ) + cur_v * unsqueeze_right(to_keep, ndim=add_ndim)
+                    mask = unsqueeze_right(to_revert, ndim=add_ndim)
                 else:
-                    self._values[k] = old_v * to_revert + cur_v * to_keep
+                    mask = to_revert
+                if isinstance(old_v, WeightedTensor) and isinstance(cur_v, WeightedTensor):
+                    self._values[k] = old_v.valued(
+                        torch.where(mask, old_v.value, cur_v.value)
+                    )
+                else:
+                    self._values[k] = torch.where(mask, old_v, cur_v)
         self._last_fork = None
 
     def to_device(self, device: torch.device) -> None:
